@@ -50,45 +50,47 @@ type WalEv struct {
 	News [][2]int `json:"news"` // hdr1: [position, home address] for the positions it adds
 }
 
-// WalStream turns recorded disk events into semantic events. `from` is the index after the initial format
-// (mkfs writes the root inode and the bitmaps directly, before any journal operation).
+// WalStream turns recorded disk events into semantic events. The stream starts with the format: MakeNfs creates the
+// log, then writes the root inode and the bitmaps DIRECTLY (makeFs), and only then commits its first transaction
+// (the root directory). Home writes before the first commit header are the format's; every later home write must
+// be an install. (The boundary is taken from the stream itself, not from when MakeNfs returned: the installer of the
+// first transaction may still be running then.)
 func WalStream(events []vdisk.Event, from int) []WalEv {
+	_ = from
 	out := []WalEv{{Ev: "wal", K: "boot", News: [][2]int{}}}
 	prevEnd := uint64(0)
 	seenHdr := false
-	for i, e := range events {
+	_ = seenHdr
+	committed := false // a header with a non-empty log has been written
+	for _, e := range events {
 		switch e.Kind {
 		case vdisk.EvBarrier:
-			if i >= from {
-				out = append(out, WalEv{Ev: "wal", K: "bar", News: [][2]int{}})
-			}
+			out = append(out, WalEv{Ev: "wal", K: "bar", News: [][2]int{}})
 		case vdisk.EvWrite:
 			switch {
 			case e.Addr == 0:
 				end := binary.LittleEndian.Uint64(e.Data[0:])
 				w := WalEv{Ev: "wal", K: "hdr1", End: Clamp(end), News: [][2]int{}}
 				lo := prevEnd
-				if !seenHdr || end < lo || end-lo > walSlots {
-					lo = end // first header of this stream (or a reset): nothing new to relate
+				// the recording starts on a blank disk: before the first header write the log is empty (end = 0)
+				if end < lo || end-lo > walSlots {
+					lo = end // a reset: nothing new to relate
 				}
 				for pos := lo; pos < end; pos++ {
 					a := binary.LittleEndian.Uint64(e.Data[8+8*(pos%walSlots):])
 					w.News = append(w.News, [2]int{Clamp(pos), Clamp(a)})
 				}
 				prevEnd, seenHdr = end, true
-				if i >= from {
-					out = append(out, w)
+				if end > 0 {
+					committed = true
 				}
+				out = append(out, w)
 			case e.Addr == 1:
-				if i >= from {
-					out = append(out, WalEv{Ev: "wal", K: "hdr2", End: Clamp(binary.LittleEndian.Uint64(e.Data[0:])), News: [][2]int{}})
-				}
+				out = append(out, WalEv{Ev: "wal", K: "hdr2", End: Clamp(binary.LittleEndian.Uint64(e.Data[0:])), News: [][2]int{}})
 			case e.Addr < walHomeLo:
-				if i >= from {
-					out = append(out, WalEv{Ev: "wal", K: "slot", Slot: int(e.Addr) - walStart, H: hashBlock(e.Data), News: [][2]int{}})
-				}
+				out = append(out, WalEv{Ev: "wal", K: "slot", Slot: int(e.Addr) - walStart, H: hashBlock(e.Data), News: [][2]int{}})
 			default:
-				if i >= from {
+				if committed {
 					out = append(out, WalEv{Ev: "wal", K: "home", Addr: int(e.Addr), H: hashBlock(e.Data), News: [][2]int{}})
 				}
 			}
